@@ -14,7 +14,7 @@ ASSUMPTIONS = [
 ]
 BOUNDS = {
     "quick": "histories of 2 operations (set then set/delete/delete_subtrie) over key lengths {1,2}x{1,2} with a free symbolic lookup key of length 1 and 2; three 3-operation histories (set,set,delete_subtrie(prefix) / set,set,delete / set,set,delete(absent prefix)) with the lookup key tied to an operation key and one key byte fixed; order independence for two 1-byte keys",
-    "thorough": "all 2-operation histories with a free lookup key; all 3-operation histories over key lengths (1,1,1) and (2,2,1) with the lookup key tied to the second operation key, and over 1-byte keys with a free lookup key where a later operation is a set (the larger grid that was first planned did not finish within an hour on 16 cores); order independence for key lengths (1,1), (1,2), (2,2)",
+    "thorough": "all 2-operation histories with a free lookup key; all 3-operation histories over key lengths (1,1,1) and (2,2,1) with the lookup key tied to the second operation key, and three sets over 1-byte keys with a free lookup key (the larger grid that was first planned did not finish within an hour on 16 cores); order independence for key lengths (1,1), (1,2)",
 }
 OUTSIDE = "keys longer than 2 bytes, histories longer than 3, 32-byte values that equal a node hash"
 
@@ -42,9 +42,9 @@ def obligations(tier):
         for kinds in itertools.product((0, 1, 2), repeat=2):
             for klens in ((1, 1, 1), (2, 2, 1)):
                 add(name, "h_bin_hist", "b_bin_hist", klens=list(klens), kinds=[0] + list(kinds), vlen=3, qlen=klens[1], qfrom=1, t=3000)
-            if 0 in kinds:
+            if kinds == (0, 0):
                 add(name, "h_bin_hist", "b_bin_hist", klens=[1, 1, 1], kinds=[0] + list(kinds), vlen=3, qlen=1, t=3000)
-        for l1, l2 in ((1, 1), (1, 2), (2, 2)):
+        for l1, l2 in ((1, 1), (1, 2)):
             add("root independent of insertion order; delete restores the earlier root; old root readable", "h_bin_order", "b_bin_order", l1=l1, l2=l2, t=7200)
     return obs
 
